@@ -126,7 +126,7 @@ def dump_term(d: dict) -> str:
             v = 'OLocked' if err and err[0]['status'] == 'NO' else 'OBroken'
         views.append(f'({fname(name_parts(name))}, {v})')
     if d.get('lsub_status') == 'OK':
-        lsub = '(Some ' + T.lst(fname(name_parts(n)) for n in d['lsub']) + ')'
+        lsub = '(Some ' + T.lst(b(n.encode('latin-1')) for n in d['lsub']) + ')'
     else:
         lsub = 'None'
     return '{| d_views := %s; d_lsub := %s |}' % (T.lst(views), lsub)
